@@ -268,8 +268,16 @@ impl Session {
 
     fn list_rows(d: &D) -> Result<Vec<String>, E> {
         let mut rows = Vec::new();
-        for r in d.iter() {
-            let e = r?;
+        let mut it = d.iter();
+        while let Some(r) = it.next() {
+            let e = match r {
+                Ok(e) => e,
+                Err(err) => {
+                    // after an error the iterator is finished: one more poll gives `None` without any device call
+                    assert!(it.next().is_none(), "DirIter yields items after an error");
+                    return Err(err);
+                }
+            };
             #[cfg(feature = "alloc")]
             let name = {
                 // query the String accessors as well; short_file_name() must agree with the bytes variant for ASCII
@@ -609,12 +617,26 @@ impl Session {
                 dev.begin_op(fault);
                 let r = guarded(|| {
                     let mut v = Vec::new();
-                    for x in file.extents() {
-                        let x = x?;
+                    let mut it = file.extents();
+                    let mut ended = false;
+                    while let Some(x) = it.next() {
+                        let x = match x {
+                            Ok(x) => x,
+                            Err(err) => {
+                                // finished after an error (no device call for the extra poll)
+                                assert!(it.next().is_none(), "extents yields items after an error");
+                                return Err(err);
+                            }
+                        };
                         v.push(format!("{}:{}", x.offset, x.size));
                         if v.len() as u64 > MAX_IO {
+                            ended = true;
                             break;
                         }
+                    }
+                    if !ended {
+                        // and it stays finished at the end of the chain (again without a device call)
+                        assert!(it.next().is_none(), "extents yields items after its end");
                     }
                     Ok(v)
                 });
